@@ -38,37 +38,43 @@ def by_op(lines):
     return ops
 
 
-def compare(a_lines, b_lines, views=('obs', 'shape', 'memo', 'ident', 'fresh')):
-    """first difference per view between two histories' line lists.
-    returns {view: (opno, a_line, b_line)}"""
+def compare(a_lines, b_lines, views=('obs', 'shape', 'memo', 'ident', 'fresh'), relevant=None):
+    """first difference per view between two histories' line lists: {view: (opno, a_line, b_line)}.
+    With `relevant(view, opno, a_line, b_line)` given, differences it rejects are skipped (and reported under
+    the key 'drift:<view>' once), so the result is the first RELEVANT difference of each view."""
     a, b = by_op(a_lines), by_op(b_lines)
     diffs = {}
-    faulted = False
     for n in sorted(set(a) | set(b)):
         ao, bo = a.get(n), b.get(n)
         if ao is not None and bo is not None and ao['R'] == ['R %d fault' % n]:
             # fault injection (implementation side only, FORMAT.md `fault`): the operation was abandoned half
             # way. Its result is not compared, and from here on the memo view is schedule dependent
             # (which nodes were hashed before the fault) - the memo *oracle* still audits it.
-            faulted = True
             ao = dict(ao)
             ao['R'] = bo['R']
             views = tuple(v for v in views if v != 'memo')
         if ao is None or bo is None:
-            diffs.setdefault('obs', (n, (ao or {}).get('R', ['<missing>'])[0] if ao else '<missing>',
-                                     (bo or {}).get('R', ['<missing>'])[0] if bo else '<missing>'))
+            x = ((ao or {}).get('R', ['<missing>'])[0] if ao else '<missing>', (bo or {}).get('R', ['<missing>'])[0] if bo else '<missing>')
+            if relevant is None or relevant('obs', n, x[0], x[1]):
+                diffs.setdefault('obs', (n,) + x)
+            else:
+                diffs.setdefault('drift:obs', (n,) + x)
             break
         for tag, view in VIEW_OF.items():
             if view not in views or view in diffs:
                 continue
-            if ao.get(tag, []) != bo.get(tag, []):
-                al, bl = ao.get(tag, []), bo.get(tag, [])
-                k = 0
-                while k < min(len(al), len(bl)) and al[k] == bl[k]:
-                    k += 1
-                diffs[view] = (n, al[k] if k < len(al) else '<missing>', bl[k] if k < len(bl) else '<missing>')
-        if 'obs' in diffs and ao['R'] != bo['R']:
-            break   # results diverged: later steps are not comparable
+            al, bl = ao.get(tag, []), bo.get(tag, [])
+            if al == bl:
+                continue
+            for k in range(max(len(al), len(bl))):
+                x = al[k] if k < len(al) else '<missing>'
+                y = bl[k] if k < len(bl) else '<missing>'
+                if x == y:
+                    continue
+                if relevant is None or relevant(view, n, x, y):
+                    diffs[view] = (n, x, y)
+                    break
+                diffs.setdefault('drift:' + view, (n, x, y))
     return diffs
 
 
